@@ -40,7 +40,10 @@ ROOTS = ['@T/root', '@T/root/', 'root', './root/', 'rootx/../root',
          # the process works in a directory BELOW the served one: the root is spelled with parent references only
          'cd=root/sub;..', 'cd=root/sub;../', 'cd=root;.', 'cd=root/sub;./..',
          # the empty string as root (what os.path.dirname('app.py') gives): the working directory
-         'cd=root;']
+         'cd=root;',
+         # a root directory that does not exist (a per-user directory nobody created yet; a relative root after a chdir): nothing is
+         # inside it - in particular not the files of the directory it would be in
+         '@T/root/nouser', 'cd=rootx;static']
 
 
 def root_and_cwd(spec, T):
@@ -89,7 +92,9 @@ def shards(tier, seed):
     for ri in (0, 2):
         for extra in ('\uff0e\uff0e', '\u2025', '\uff0e', '..\uff0fabove.txt', '\uff0f',
                       # percent-encoded spellings: ordinary name characters for static_file (decoding is the server's business)
-                      '%2e%2e', '%2e.', '..%2fabove.txt', '%2f', '%252e%252e'):
+                      '%2e%2e', '%2e.', '..%2fabove.txt', '%2f', '%252e%252e',
+                      # path-parameter spellings (';' and what follows it belong to the name)
+                      '..;', '..;v=1', ';', '.;', '..;/..;'):
             out.append((ri, None, 3, extra))
     # conditional requests (If-Modified-Since in the future): outside names stay 403 / 404, inside files answer 304
     for ri in (0, 2):
